@@ -119,7 +119,21 @@ def select_histories(records, n, r):
         return {x["op"] for i, x in enumerate(h) if i < last_ok and (not sandwiched or i > first_ok) and x["op"] in SAFE_OPS + FAULTS}
 
     picks, covered = [], set()
-    # first the incremental case proper for every operation, then any operation not yet covered at all
+    # always there, whatever order TLC exported the histories in: for every source, the plain incremental case
+    # "build, edit that source, build again" (the first edit of a source changes a colour only)
+    plain = {}
+    for rec in sorted(pool, key=lambda x: json.dumps(x["hist"], sort_keys=True)):
+        h = rec["hist"]
+        for i in range(len(h) - 3):
+            if (h[i]["op"] == "Done" and h[i]["exit"] == 0 and h[i + 1]["op"] == "Edit" and h[i + 2]["op"] == "Invoke"
+                    and h[i + 3]["op"] == "Done" and h[i + 3]["exit"] == 0 and h[i + 1]["s"] not in plain
+                    and not any(x.get("s") == h[i + 1]["s"] and x["op"] in ("Edit", "RestoreOlder", "AddOld", "Remove", "Add") for x in h[:i + 1])):
+                plain[h[i + 1]["s"]] = rec
+                break
+    for src in sorted(plain):
+        picks.append(plain[src])
+        covered |= kinds(plain[src])
+    # then the incremental case proper for every operation, then any operation not yet covered at all
     for sandwiched in (True, False):
         done = set()
         for want in SAFE_OPS + FAULTS:
@@ -137,7 +151,7 @@ def select_histories(records, n, r):
             break
         if rec not in picks:
             picks.append(rec)
-    return picks[:max(n, len(covered))], len(seen), sorted(covered)
+    return picks[:max(n, len(covered), len(plain) + len(covered))], len(seen), sorted(covered)
 
 
 def run_models(chk, fam, data, sd, quick, user_ops=None):
